@@ -32,8 +32,26 @@ def _dominating_tests(fnode, target):
     """tests of the enclosing `if`s whose *body* (true branch) contains target."""
     out = []
 
+    def always_exits(body):
+        if not body:
+            return False
+        last = body[-1]
+        if isinstance(last, (ast.Return, ast.Raise, ast.Continue, ast.Break)):
+            return True
+        if isinstance(last, ast.If):
+            return always_exits(last.body) and always_exits(last.orelse)
+        return False
+
     def rec(stmts, tests):
+        tests = list(tests)
         for s in stmts:
+            if isinstance(s, ast.If) and not any(x is target for x in ast.walk(s)):
+                # an earlier guard that leaves the block: later statements run only when its test was false (or true)
+                if always_exits(s.body) and not s.orelse:
+                    tests.append((s.test, False))
+                elif s.orelse and always_exits(s.orelse) and not always_exits(s.body):
+                    tests.append((s.test, True))
+                continue
             if any(x is target for x in ast.walk(s)):
                 if isinstance(s, ast.If):
                     if any(x is target for b in s.body for x in ast.walk(b)):
